@@ -47,6 +47,13 @@ def drives(kind, ph, n):
                 {"amp": ["ramp", 40, 6.0, 1.0], "det": ["const", 40, 2.0], "phase": ph + 1.3},
             ]
         }
+    if kind == "phasejump":
+        return {
+            "pulses": [
+                {"amp": ["const", 50, 6.0], "det": ["const", 50, 2.0], "phase": ph},
+                {"amp": ["const", 50, 6.0], "det": ["const", 50, 2.0], "phase": ph + 1.3},
+            ]
+        }
     if kind == "dmm":
         w = ([1.0, 0.0, 0.45, 0.2] + [0.3] * n)[:n]
         return {
@@ -101,7 +108,7 @@ def _cfgs(tier):
 def bounds(tier, seed):
     return {
         "registers": ["pair", "bent3", "zig4"] + (["tri3", "rect4", "chain5", "chain6"] if tier == "thorough" else []),
-        "drive_kinds": ["global", "twophase", "dmm", "local", "slm"],
+        "drive_kinds": ["global", "twophase", "phasejump (same amplitude/detuning, phase jump)", "dmm", "local", "slm"],
         "basis": ["rydberg", "xy (global, twophase, slm)"],
         "phase": [0.0, 0.7],
         "configs": _cfgs(tier),
@@ -113,7 +120,7 @@ def cases(tier, seed):
     shapes = ["pair", "bent3", "zig4"] + (["tri3", "rect4"] if tier == "thorough" else [])
     for shape in shapes:
         n = len(SHAPES[shape])
-        for kind in ("global", "twophase", "dmm", "local", "slm"):
+        for kind in ("global", "twophase", "phasejump", "dmm", "local", "slm"):
             for basis in ("rydberg", "xy"):
                 if basis == "xy" and kind in ("dmm", "local"):
                     continue
